@@ -104,7 +104,12 @@ func (p *Packet) Frames() int {
 		}
 	}
 
-	return int(p.payloadLength) / (p.format.wordlen * nchan)
+	// A format TLV without any type letter has word length 0: no frames, rather than a division by zero.
+	framesize := p.format.wordlen * nchan
+	if framesize <= 0 {
+		return 0
+	}
+	return int(p.payloadLength) / framesize
 }
 
 // SequenceNumber returns the packet's internal sequenceNumber
